@@ -6,8 +6,11 @@ package engines
 
 import (
 	"fmt"
+	"github.com/boz/kcache/filter"
+	"github.com/boz/kcache/nsname"
 	"sort"
 	"strings"
+	"time"
 
 	"github.com/boz/kcache"
 	metav1 "k8s.io/apimachinery/pkg/apis/meta/v1"
@@ -70,7 +73,11 @@ func e8Expect(content []metav1.Object, f1, f2 *kit.Term) []string {
 func e8Case(mask int, variant string, triples bool, perturbSeed uint64) Case {
 	id := fmt.Sprintf("E8/content%02d/%s/triples=%v/%d", mask, variant, triples, perturbSeed)
 	return Case{ID: id, Desc: map[string]interface{}{"content_mask": mask, "variant": variant, "triples": triples}, Bubble: true, Run: func(r *Res) {
-		core := kit.NewCore(&kit.Plan{Seed: perturbSeed, PYield: 100})
+		plan := &kit.Plan{Seed: perturbSeed, PYield: 100}
+		if mask%2 == 1 {
+			plan.Targets = map[string]time.Duration{"refiltering": 100 * time.Microsecond}
+		}
+		core := kit.NewCore(plan)
 		g := newRootRig(core, nil)
 		var content []metav1.Object
 		for i, o := range e8Objects() {
@@ -184,6 +191,30 @@ func e8Case(mask int, variant string, triples bool, perturbSeed uint64) Case {
 						return
 					}
 				}
+				if (i1+i2)%4 == 2 || triples {
+					// an EQUAL filter (rebuilt) immediately followed by a different one, while
+					// the node is still busy with the first: the second must not be lost
+					g.barrier()
+					drainNow(events)
+					other := f1
+					if cur == f1 {
+						other = f2
+					}
+					e1, e2 := nd.refilt(cur), nd.refilt(other)
+					g.barrier()
+					drainNow(events)
+					after, _ := cacheSnap(nd.cc.Cache())
+					r.Add("back-to-back-refilters", 1)
+					if e1 != nil || e2 != nil {
+						r.V("C07", "refilter-error", "%s: back-to-back Refilter: %v %v", label, e1, e2)
+						return
+					}
+					if exp := other.Accepted(content); !after.Equal(exp) {
+						r.V("C07", "refilter-cache-wrong", "%s: Refilter(%s) (equal to the current filter) immediately followed by Refilter(%s): the cache ends as %v, expected %v (the second call was lost)", label, cur, other, after, exp)
+						return
+					}
+					cur = other
+				}
 				if (i1+i2)%4 == 1 || triples {
 					// back to back, without settling in between: Refilter(f1); Refilter(f2)
 					// must end in f2's view, and the delivered events must replay the
@@ -228,7 +259,6 @@ func e8Case(mask int, variant string, triples bool, perturbSeed uint64) Case {
 		r.Sample = map[string]interface{}{"content": kit.SnapOf(content).String(), "variant": variant, "examples": sample}
 	}}
 }
-
 
 // e8FilteredParentCase: the parent of the refiltered node is itself a FILTERED
 // clone whose content has just changed because one of its objects stopped
@@ -322,6 +352,86 @@ func e8FilteredParentCase(seed uint64, vanish int) Case {
 	}}
 }
 
+// e8CallerSliceCase: the caller keeps ONE slice of ids and builds its NSName filter
+// from it every time (spread form), also after editing the slice.  Refiltering
+// to a filter built again from the untouched slice is silent; after an edit the
+// delta is exactly the membership change.
+func e8CallerSliceCase(seed uint64, n int) Case {
+	id := fmt.Sprintf("E8/filter-rebuilt-from-callers-slice/%d/%d", seed, n)
+	return Case{ID: id, Desc: map[string]interface{}{"n": n, "what": "NSName(ids...) built repeatedly from a slice the caller keeps and edits"}, Bubble: true, Run: func(r *Res) {
+		core := kit.NewCore(&kit.Plan{Seed: kit.Mix(seed, uint64(n)), PYield: 100})
+		g := newRootRig(core, nil)
+		defer g.stop(r, "C12")
+		content := []metav1.Object{
+			kit.Pod("a", "x1", "1", nil), kit.Pod("a", "x2", "2", nil), kit.Pod("b", "y1", "3", nil),
+			kit.Pod("b", "y2", "4", nil), kit.Pod("c", "z1", "5", nil), kit.Pod("c", "x1", "6", nil),
+		}
+		if _, err := g.root.Cache().Sync(content); err != nil {
+			r.Inc(err.Error())
+			return
+		}
+		g.root.MakeReady()
+		layouts := [][]nsname.NSName{
+			{nsname.New("a", "x1"), nsname.New("b", "")},
+			{nsname.New("b", ""), nsname.New("a", "x1")},
+			{nsname.New("a", "x1"), nsname.New("", "z1"), nsname.New("b", "y2"), nsname.New("c", "")},
+			{nsname.New("", "x1"), nsname.New("a", "x2"), nsname.New("b", "")},
+		}
+		ids := append([]nsname.NSName(nil), layouts[n%len(layouts)]...)
+		ref := func(l []nsname.NSName) *kit.Term { return kit.TNSName(append([]nsname.NSName(nil), l...)...) }
+		sub, err := g.root.Publisher().SubscribeWithFilter(filter.NSName(ids...))
+		if err != nil {
+			r.V("C07", "tree-build-error", "%v", err)
+			return
+		}
+		defer sub.Close()
+		g.barrier()
+		cur := ref(ids)
+		step := func(what string, edit func()) bool {
+			before := append([]nsname.NSName(nil), ids...)
+			if edit != nil {
+				edit()
+			}
+			want := ref(ids)
+			drainNow(sub.Events())
+			if err := sub.Refilter(filter.NSName(ids...)); err != nil {
+				r.V("C07", "refilter-error", "%s: %v", what, err)
+				return false
+			}
+			g.barrier()
+			evts := drainNow(sub.Events())
+			exp := e8Expect(content, cur, want)
+			var got []string
+			for _, e := range evts {
+				got = append(got, fmt.Sprintf("%s %s@%s", e.Type(), kit.Key(e.Resource()), e.Resource().GetResourceVersion()))
+			}
+			sort.Strings(got)
+			r.Add("caller-slice-refilters", 1)
+			if strings.Join(got, ";") != strings.Join(exp, ";") {
+				r.V("C07", "refilter-delta-wrong", "%s: the caller's slice was %v and is now %v; Refilter(NSName(slice...)) delivered %v, expected exactly %v", what, before, ids, got, exp)
+				return false
+			}
+			if after, _ := cacheSnap(sub.Cache()); !after.Equal(want.Accepted(content)) {
+				r.V("C07", "refilter-cache-wrong", "%s: the view is %v, expected %v for ids %v", what, after, want.Accepted(content), ids)
+				return false
+			}
+			cur = want
+			return true
+		}
+		if !step("same slice again", nil) || !step("same slice a third time", nil) {
+			return
+		}
+		if !step("first id edited", func() { ids[0] = nsname.New("c", "") }) {
+			return
+		}
+		if !step("same slice after the edit", nil) {
+			return
+		}
+		step("last id edited", func() { ids[len(ids)-1] = nsname.New("a", "x2") })
+		r.Key(id)
+	}}
+}
+
 func init() {
 	register("E8", func(tier string, seed uint64) []Case {
 		var cases []Case
@@ -336,6 +446,9 @@ func init() {
 			for rep := 0; rep < tierPick(tier, 1, 8); rep++ {
 				cases = append(cases, e8FilteredParentCase(seed+uint64(rep)*131, v))
 			}
+		}
+		for i := 0; i < tierPick(tier, 4, 32); i++ {
+			cases = append(cases, e8CallerSliceCase(seed, i))
 		}
 		return cases
 	})
